@@ -33,11 +33,11 @@ ASSUMPTIONS = [
 
 FWS = ["tx", "aio"]
 SYNC = ["value", "callresult", "none", "unserializable", "oversized", "app_error", "mapped", "unmapped",
-        "unserializable_error", "oversized_error", "progress_sync"]
+        "unserializable_error", "oversized_error", "progress_sync", "mapped_explicit"]
 LATER = ["later:value", "later:callresult", "later:unserializable", "later:oversized", "later:app_error",
          "later:unmapped"]
 BEHAVIOURS = SYNC + LATER
-CODEC_BEHS = ("value", "callresult", "none", "unserializable", "app_error", "mapped", "unmapped",
+CODEC_BEHS = ("value", "callresult", "none", "unserializable", "app_error", "mapped", "mapped_explicit", "unmapped",
               "progress_sync", "later:value", "later:callresult", "later:app_error")
 TRANSPORTS = [("rs", "json"), ("rs", "cbor"), ("ws", "json"), ("ws", "msgpack")]
 TRANSPORTS_T = [(k, s) for k in ("rs", "ws") for s in ("json", "msgpack", "cbor", "ubjson")]
@@ -144,6 +144,7 @@ ARGS = [1, "two"]
 KWARGS = {"k": [3]}
 APP_URI = "com.myapp.error"
 MAPPED_URI = "com.myapp.mapped"
+MAPPED2_URI = "com.myapp.mapped2"       # a plain exception class registered with define(cls, uri)
 OVERSIZE = 3000
 LIMIT = 2048
 LIMIT_EXP = 2
@@ -165,6 +166,8 @@ def outcome_of(kind):
         return ("error", "app")
     if kind == "mapped":
         return ("error", "mapped")
+    if kind == "mapped_explicit":
+        return ("error", "mapped_explicit")
     if kind == "unmapped":
         return ("error", "runtime")
     if kind == "unserializable_error":
@@ -179,6 +182,7 @@ def outcome_of(kind):
 URI_CLASS = {
     "app": {APP_URI},
     "mapped": {MAPPED_URI},
+    "mapped_explicit": {MAPPED2_URI},
     "runtime": {"wamp.error.runtime_error"},
     "canceled": {"wamp.error.canceled", "wamp.error.runtime_error"},
     "unserializable": None,     # any ERROR
@@ -269,6 +273,14 @@ def mapped_error_class():
             pass
         _cls["c"] = MappedError
     return _cls["c"]
+
+
+def explicit_error_class():
+    if "e" not in _cls:
+        class ExplicitError(Exception):
+            pass
+        _cls["e"] = ExplicitError
+    return _cls["e"]
 
 
 class MiniTransport:
@@ -515,6 +527,8 @@ def run_case(case):
             return ApplicationError(APP_URI, 1, k=2)
         if kind == "mapped":
             return mapped_error_class()("mapped failure")
+        if kind == "mapped_explicit":
+            return explicit_error_class()("explicitly mapped failure")
         if kind == "unmapped":
             return RuntimeError("boom")
         if kind == "unserializable_error":
@@ -525,6 +539,7 @@ def run_case(case):
 
     def on_join(session, details):
         session.define(mapped_error_class())
+        session.define(explicit_error_class(), MAPPED2_URI)
         if case.get("codec"):
             session.set_payload_codec(JsonEnvelopeCodec())
         for i in range(len(invs)):
